@@ -27,6 +27,14 @@
 (*  S4 answer      what goes back to the proxy is the combination of the actions  *)
 (*                 of the processors that ran (= C07 ActionsP): the first early   *)
 (*                 response unchanged, else the union of all header edits         *)
+(*  S6 retries     "RetryProcessor allows you to retry requests that have failed ...  *)
+(*                 you can define the number of retries ... as well as the status  *)
+(*                 codes that should trigger a retry" (retry_processor.yaml; the   *)
+(*                 status codes are a Filter with status_code_range in front): per *)
+(*                 Retry processor and sequence at most `attempts` retries, none   *)
+(*                 for a status outside the range (= C17 RetryP, flows mode); the  *)
+(*                 re-sent request is a request like any other (selected, walked,  *)
+(*                 charged to the quotas again)                                    *)
 (*  S5 safety      handling a transaction never crashes the engine (C05)          *)
 (* It is a specification of *recorded whole-engine histories*: GatewayTrace walks *)
 (* through the processor executions of every transaction (observed at the         *)
@@ -40,13 +48,16 @@
 (*   QMax, QW, QKind : [quota id -> ...],  LimQ : [Limiter key -> quota id]       *)
 (*   GenStatus : [GenerateResponse key -> status],  SetH : [TransformAPICall key  *)
 (*   -> <<side, header name, value>>] (a "set" rule on a request / response header) *)
+(*   StRange : [Filter key -> <<from, to>>] (status_code_range),                   *)
+(*   RetryA : [Retry key -> attempts]                                              *)
 EXTENDS FlowGraphP
 
-CONSTANTS Cfg, QIds, QKind, QMax, QW, LimQ, GenStatus, SetH, TxIds
+CONSTANTS Cfg, QIds, QKind, QMax, QW, LimQ, GenStatus, SetH, StRange, RetryA, TxIds, SqIds
 
 VARIABLES now,
           lo, hi, charged, admitted, fwlast,        \* FixedWindowP (fixed-window quotas)
-          inflight, deadline, cqlast                \* ConcurrencyP (concurrency quotas)
+          inflight, deadline, cqlast,               \* ConcurrencyP (concurrency quotas)
+          rmode, rA, rAF, rranges, rB, rcnt, rlast  \* RetryP (Retry processors)
 
 Fixed == {q \in QIds : QKind[q] = "fixed"}
 Conc  == {q \in QIds : QKind[q] = "conc"}
@@ -106,6 +117,47 @@ Exposed(seq, q) ==
     LET I == {i \in 1..Len(seq) : IsLim(seq[i]) /\ LimQ[seq[i].key] = q}
     IN IF I = {} THEN "any" ELSE LimVerdict(seq[CHOOSE i \in I : \A j \in I : i <= j])
 
+\* ------------------------------------------------------------------ retries (S6 = C17, flows mode)
+\* one budget per (Retry processor, sequence id): every processor bounds its own retries
+RKeys == {<<k, sq>> : k \in DOMAIN RetryA \ {"-"}, sq \in SqIds}
+RT == INSTANCE RetryP WITH Sids <- RKeys, Modes <- {}, AttemptsSet <- {}, RangesC <- {}, Statuses <- {}, Steps <- {},
+        mode <- rmode, A <- rA, AF <- rAF, ranges <- rranges, B <- rB, cnt <- rcnt, last <- rlast
+rvars == <<rmode, rA, rAF, rranges, rB, rcnt, rlast>>
+RetryRanges == <<<<500, 599>>>>          \* every status Filter of the generated configurations has this range (RetryP has one `ranges`)
+RetryInit ==
+    /\ rmode = "flows" /\ rA = 0 /\ rranges = RetryRanges
+    /\ rAF = [s \in RKeys |-> RetryA[s[1]]]
+    /\ rB = [s \in RKeys |-> {RetryA[s[1]]}] /\ rcnt = [s \in RKeys |-> 0] /\ rlast = [ev |-> "reset"]
+RetryReset ==
+    /\ rB' = [s \in RKeys |-> {RetryA[s[1]]}] /\ rcnt' = [s \in RKeys |-> 0] /\ rlast' = [ev |-> "reset"]
+    /\ UNCHANGED <<rmode, rA, rAF, rranges>>
+FlowOfProc(k) == Cfg.flows[CHOOSE i \in 1..Len(Cfg.flows) : HasProc(Cfg.flows[i], k)].name
+\* the Retry processors that had the chance to see transaction e: those of the flows whose response side ran
+RetrySeen(e) == {k \in DOMAIN RetryA \ {"-"} : FlowOfProc(k) \in UserFlowsDir(e.seq, "res")}
+RetryOut(e, k) == LET I == {i \in 1..Len(e.seq) : e.seq[i].sid = "" /\ e.seq[i].key = k /\ e.seq[i].dir = "res"}
+                  IN IF I = {} THEN "none" ELSE e.seq[CHOOSE i \in I : TRUE].out
+\* G6 (observation): on the response walk of an EARLY response there is no response message; a Filter with a status_code_range
+\* answers "hit" whatever the range, so the Retry processor behind it runs, counts one attempt of the sequence and asks for a retry
+\* that nobody carries out (the action is dropped).  Modelled as it is: for such a walk the status counts as inside the conditions
+\* exactly when the Retry processor was reached.
+RetryCond(e, k) == IF e.dir = "res" THEN RT!InCond(e.x.status) ELSE RetryOut(e, k) # "none"
+RetryNext(e) == [s \in RKeys |-> IF s[2] = e.sq /\ s[1] \in RetrySeen(e)
+                                 THEN RT!StepB(rB[s], RetryCond(e, s[1]), FALSE, RetryOut(e, s[1]), RT!BudOf(s)) ELSE rB[s]]
+RetryAccepted(e) == \A s \in RKeys : RetryNext(e)[s] # {}
+RetryStep(e) ==
+    /\ rB' = RetryNext(e)
+    /\ rcnt' = [s \in RKeys |-> IF s[2] = e.sq /\ s[1] \in RetrySeen(e) THEN (IF RetryOut(e, s[1]) = "retry" THEN rcnt[s] + 1 ELSE 0) ELSE rcnt[s]]
+    /\ rlast' = [ev |-> "resp", s |-> e.sq]
+    /\ UNCHANGED <<rmode, rA, rAF, rranges>>
+\* the statement is silent about time: any passage of time may make the gateway forget a sequence (RetryP!Adv)
+RetryAdv == /\ rB' = [s \in RKeys |-> rB[s] \cup {RT!BudOf(s)}] /\ rcnt' = [s \in RKeys |-> 0] /\ rlast' = [ev |-> "adv"]
+            /\ UNCHANGED <<rmode, rA, rAF, rranges>>
+\* a Filter with a status_code_range on the response side answers "hit" exactly for the statuses of its range (registry:
+\* "filtering by status code range"); on the walk of an early response see G6
+StatusFilterOK(e) == \A i \in 1..Len(e.seq) :
+    (e.seq[i].sid = "" /\ e.seq[i].key \in DOMAIN StRange /\ e.seq[i].dir = "res" /\ e.dir = "res")
+        => (e.seq[i].out = "hit") = (StRange[e.seq[i].key][1] <= e.x.status /\ e.x.status <= StRange[e.seq[i].key][2])
+
 \* ------------------------------------------------------------------ the answer (S4 = C07)
 A == INSTANCE ActionsP
 
@@ -146,6 +198,9 @@ ProcActsOK(e, i) ==
               /\ A!Pairs(as[1].h) \ {SetPair(s.key)} \subseteq own
     ELSE IF IsSet(s.key, "res") /\ s.dir = "res"                                     \* G5
          THEN Len(as) <= 1 /\ \A j \in 1..Len(as) : as[j].k \in {"noop", "modresp"}
+    ELSE IF s.key \in DOMAIN RetryA /\ s.dir = "res" /\ e.dir = "res" /\ s.out = "retry"
+         THEN Len(as) = 1 /\ as[1].k = "retry" /\ A!Pairs(as[1].h) = {}
+    ELSE IF s.key \in DOMAIN RetryA THEN as = <<>>          \* "failed" hands back nothing; on the walk of an early response see G6
     ELSE AllNoop
 
 \* the answer a user of the configuration relies on, from the configuration and the executed processors alone:
@@ -161,7 +216,10 @@ ReqAnswerOK(e) ==
     THEN e.out.early /\ e.out.st = ExpectedStatus(e.seq) /\ e.out.body = ReqGens(e.seq)[1].key /\ A!Pairs(e.out.rh) = GenHeaders
     ELSE ~e.out.early /\ \A n \in SetNames(e.seq, "req") : <<n, LastSet(e.seq, "req", n)>> \in A!Pairs(e.out.qh)
 ResAnswerOK(e) ==
-    /\ ~e.out.early /\ ~e.out.retry
-    /\ \A n \in SetNames(e.seq, "res") : <<n, LastSet(e.seq, "res", n)>> \in A!Pairs(e.out.rh)
-    /\ SetNames(e.seq, "res") # {} => e.out.st = e.x.status
+    /\ ~e.out.early
+    \* the proxy is asked to send the request again only if a Retry processor said so (whether a retry or a modification wins when
+    \* both were asked for is left open by C07)
+    /\ e.out.retry => \E k \in RetrySeen(e) : RetryOut(e, k) = "retry"
+    /\ ~e.out.retry => \A n \in SetNames(e.seq, "res") : <<n, LastSet(e.seq, "res", n)>> \in A!Pairs(e.out.rh)
+    /\ (SetNames(e.seq, "res") # {} /\ ~e.out.retry) => e.out.st = e.x.status
 ================================================================================
